@@ -89,6 +89,25 @@ def main():
             bad += not caught
             results.append({"seeded": sid, "property": meta["property"], "caught_by": caught,
                             "results": {c: rc for c, (rc, _, _) in res.items()}})
+    elif mode == "mutants":  # hand-written patches selftest/mutants/<Cxx>-<name>.patch
+        mdir = os.path.join(V, "selftest", "mutants")
+        for f in sorted(os.listdir(mdir)):
+            if not f.endswith(".patch") or (only and only not in f):
+                continue
+            d = scratch()
+            try:
+                ok, msg = apply_patch(d, open(os.path.join(mdir, f)).read())
+                if not ok:
+                    print(f"{f}: patch does not apply: {msg[:200]}")
+                    bad += 1
+                    continue
+                res = run_checks(d, [f.split("-")[0]])
+            finally:
+                shutil.rmtree(d, ignore_errors=True)
+            for c, (rc, dt, lines) in res.items():
+                print(f"{'CAUGHT' if rc == 1 else 'MISSED'} mutant {f} by {c} (rc={rc}, {dt}s)")
+                bad += rc != 1
+                results.append({"mutant": f, "check": c, "rc": rc, "caught": rc == 1, "first": lines[:1]})
     elif mode == "patch":
         d = scratch()
         try:
